@@ -65,10 +65,13 @@ def explore(ctx):
                 return True
             return any(c.get('extra') or any(p.get('type') in (None, ('any',)) for p in c.get('params', []))
                        for c in spec)
-        for c in LC.gen_cases(ctx, ctx.budget(500, 12000), mutate_p=0.0, prop='C04', model_filter=has_open):
+        import itertools
+        for c in itertools.chain(
+                LC.gen_cases(ctx, ctx.budget(500, 12000), mutate_p=0.0, prop='C04', model_filter=has_open),
+                LC.alias_across_types(ctx, ctx.budget(40, 800))):
             # inject 1-3 tags
             doc = c.doc
-            if doc is not None and ctx.rng.random() < 0.75:
+            if doc is not None and ctx.rng.random() < 0.75 and not (c.desc and c.desc[0] == 'alias-across-types'):
                 k = ctx.rng.randint(1, 3)
                 descs = []
                 for _ in range(k):
